@@ -778,4 +778,106 @@ theorem renderLines_noNL (r : Renderer) (t : Table) (ls : List (List Char)) (hp 
     · cases h
 
 
+
+theorem updWidths_none (r : Renderer) : ∀ (ws : List Nat) (row : List Cell), ws.length < row.length →
+    updWidths r ws row = none
+  | _, [], h => by simp at h
+  | [], _ :: _, _ => rfl
+  | w :: ws, c :: cs, h => by
+    simp only [updWidths, updWidths_none r ws cs (by simpa using h)]
+
+theorem widthsPass1_none (r : Renderer) : ∀ (rows : List (List Cell)) (ws : List Nat),
+    (∃ row ∈ rows, ws.length < row.length) → widthsPass1 r ws rows = none
+  | [], _, h => by simp at h
+  | row :: rows, ws, h => by
+    simp only [widthsPass1]
+    cases hu : updWidths r ws row with
+    | none => rfl
+    | some w1 =>
+      simp only []
+      have hl := le2_length (updWidths_spec r ws row w1 hu).1
+      apply widthsPass1_none r rows w1
+      obtain ⟨x, hx, hlt⟩ := h
+      rcases List.mem_cons.mp hx with rfl | hx
+      · have := updWidths_none r ws x hlt
+        rw [this] at hu; cases hu
+      · exact ⟨x, hx, by omega⟩
+
+theorem renderCells_some (r : Renderer) : ∀ (row : List Cell) (W : List Nat), row.length ≤ W.length →
+    ∃ body, renderCells r row W = some body
+  | [], _, _ => ⟨[], rfl⟩
+  | _ :: _, [], h => by simp at h
+  | [c], w :: ws, _ => ⟨_, rfl⟩
+  | c :: c' :: cs, w :: ws, h => by
+    obtain ⟨t, ht⟩ := renderCells_some r (c' :: cs) ws (by simpa using h)
+    exact ⟨renderCell r c w ++ createSep c c' ++ t, by simp only [renderCells, ht]⟩
+
+theorem renderRows_some_iff (r : Renderer) (W : List Nat) : ∀ (rows : List (List Cell)),
+    (∀ row ∈ rows, row.length ≤ W.length) → ((∃ ls, renderRows r W rows = some ls) ↔ ∀ row ∈ rows, row ≠ [])
+  | [], _ => by simp [renderRows]
+  | row :: rows, h => by
+    have ih := renderRows_some_iff r W rows (fun x hx => h x (by simp [hx]))
+    constructor
+    · intro ⟨ls, hls⟩
+      simp only [renderRows] at hls
+      cases h1 : renderRow r W row with
+      | none => simp [h1] at hls
+      | some l =>
+        cases h2 : renderRows r W rows with
+        | none => simp [h1, h2] at hls
+        | some ls' =>
+          intro x hx
+          rcases List.mem_cons.mp hx with rfl | hx
+          · intro he; subst he; simp [renderRow] at h1
+          · exact ih.mp ⟨ls', h2⟩ x hx
+    · intro hne
+      obtain ⟨ls', h2⟩ := ih.mpr (fun x hx => hne x (by simp [hx]))
+      have hrow := hne row (by simp)
+      cases row with
+      | nil => exact absurd rfl hrow
+      | cons c0 rest =>
+        obtain ⟨body, hb⟩ := renderCells_some r (c0 :: rest) W (h _ (by simp))
+        exact ⟨((if c0.isSep then "+-".toList else "| ".toList) ++ body ++
+          (if ((c0 :: rest).getLast?.getD c0).isSep then "-+".toList else " |".toList)) :: ls', by simp only [renderRows, renderRow, hb, h2]⟩
+
+theorem widthsPass1_length (r : Renderer) (rows : List (List Cell)) (ws ws' : List Nat)
+    (h : widthsPass1 r ws rows = some ws') : ws'.length = ws.length :=
+  (le2_length (widthsPass1_spec r rows ws ws' h).1).symm
+
+/-- **the panic outcomes, under exactly the guards the code has**: `Render` completes iff every row
+has at least one cell (`row.cells[0]`) and at most as many as the table has columns (`widths[i]`). -/
+theorem renderLines_ok_iff (r : Renderer) (t : Table) :
+    (∃ ls, renderLines r t = .ok ls) ↔ ∀ row ∈ t.rows, row ≠ [] ∧ row.length ≤ t.width := by
+  constructor
+  · intro ⟨ls, hls⟩
+    unfold renderLines finalWidths at hls
+    cases hw : widthsPass1 r (List.replicate t.width 0) t.rows with
+    | none => simp [hw] at hls
+    | some w1 =>
+      have hlen : ∀ row ∈ t.rows, row.length ≤ t.width := by
+        intro row hrow
+        rcases Nat.lt_or_ge t.width row.length with hlt | hge
+        · have := widthsPass1_none r t.rows (List.replicate t.width 0) ⟨row, hrow, by simpa using hlt⟩
+          rw [this] at hw; cases hw
+        · exact hge
+      have hl1 := widthsPass1_length r _ _ _ hw
+      have hl2 : (widthsPass2 t.columns w1).length = t.width := by
+        rw [← le2_length (widthsPass2_le t.columns w1), hl1]; simp
+      simp only [hw] at hls
+      cases hr : renderRows r (widthsPass2 t.columns w1) t.rows with
+      | none => simp [hr] at hls
+      | some ls' =>
+        have := (renderRows_some_iff r _ t.rows (fun x hx => by rw [hl2]; exact hlen x hx)).mp ⟨ls', hr⟩
+        exact fun row hrow => ⟨this row hrow, hlen row hrow⟩
+  · intro h
+    obtain ⟨w1, hw1⟩ := widthsPass1_some r t.rows (List.replicate t.width 0)
+      (fun row hrow => by simpa using (h row hrow).2)
+    have hl1 := widthsPass1_length r _ _ _ hw1
+    have hl2 : (widthsPass2 t.columns w1).length = t.width := by
+      rw [← le2_length (widthsPass2_le t.columns w1), hl1]; simp
+    obtain ⟨ls, hls⟩ := (renderRows_some_iff r _ t.rows (fun x hx => by rw [hl2]; exact (h x hx).2)).mpr
+      (fun row hrow => (h row hrow).1)
+    exact ⟨ls, by simp [renderLines, finalWidths, hw1, hls]⟩
+
+
 end Knut.Table
